@@ -17,7 +17,8 @@ Generators (all seeded):
 Violation signature: {op, a, b, c, mode, operands, tag}
   a/b/c     class of the operand: zero, +-fix, +-fixedge, fixmin, fixmax+1, +-big1, +-big2, +-bigN, +-ratio ("-" = unused);
             ratios carry the suffixes :num=fixmin, :num=fixmax+1 and :den=fixmax+1 (parts at the fixnum/bignum border)
-  mode      crash | error | unparsable-output | wrong-result | operand-mutated | not-canonical-fixnum | not-eqv-to-literal
+  mode      crash | error | unparsable-output | wrong-result | operand-mutated | not-canonical-fixnum |
+            not-canonical-ratio-parts (numerator/denominator in fixnum range but not a fixnum) | not-eqv-to-literal
   operands  what the operands look like *after* the operation: intact | a-negated | b-negated | a-negated+b-negated | a-changed ...
   r         class of the expected result (same classes; lists joined by ","; bool; string)
   a wrong operand that was built by a non-literal route is reported as {op: "route:<route>", a: class, mode: wrong-result}
@@ -394,6 +395,8 @@ def build_case(rng, op, a, b, c=0):
         x, e = "(expt a b)", fa ** k
         if fa.denominator != 1:
             tag = "ratio-base," + ("negative-exponent" if k < 0 else "exponent>=0")
+            if k > 0 and any((fa ** j).denominator == FIXMAX + 1 for j in range(1, k + 1)):
+                tag = "intermediate-denominator=2^62"       # square-and-multiply passes through base^j
     elif op == "exact-integer-sqrt":
         if ia is None:
             return None
@@ -704,7 +707,9 @@ def finish_case(rng, c, cid):
         fixchk = "#f" if not isinstance(e, list) else "(map fixnum? r)"
     else:
         canonchk = "(eqv? r %s)" % expected_lit(e)
-        fixchk = "(fixnum? r)"
+        # integers: fixnum?; ratios: fixnum? of both parts (a part in fixnum range must be a fixnum)
+        fixchk = ("(cond ((not (number? r)) #f) ((exact-integer? r) (fixnum? r)) "
+                  "((exact? r) (list (fixnum? (numerator r)) (fixnum? (denominator r)))) (else #f))")
     form = ("(%%case %s (let* ((a %s) (b %s) (c %s) (r %s)) (list r %s %s a b c)))"
             % (cid, ra, rb, rc, c["expr"], fixchk, canonchk))
     c.update(id=cid, form=form, routes=(rta, rtb, rtc))
@@ -848,6 +853,10 @@ def judge(rep, c, res):
             want = [is_fix(x) for x in e]
             if fixp != want:
                 rep.violation(dict(sig0, mode="not-canonical-fixnum"), wit)
+                return
+        elif isinstance(e, Fraction):
+            if fixp != [is_fix(e.numerator), is_fix(e.denominator)]:
+                rep.violation(dict(sig0, mode="not-canonical-ratio-parts"), wit)
                 return
         elif fixp != is_fix(e):
             rep.violation(dict(sig0, mode="not-canonical-fixnum"), wit)
